@@ -170,7 +170,7 @@ def run(rep, tier, seed):
             it["run"] = {k: res[it["id"]].get(k) for k in ("how", "msg", "line")}
         # (2) stdin through a pipe, chunk schedules, through the binary
         pipes = []
-        for i in range(120 if tier == "quick" else 1500):
+        for i in range(240 if tier == "quick" else 1500):
             utf8 = rnd.random() < 0.5
             data = content(rnd, utf8)
             calls = calls_for(rnd, utf8, len(data))
